@@ -33,6 +33,7 @@ type Config struct {
 	OpaqueMax   int
 	Thorough    bool
 	NoIfConv    bool
+	PruneUnwind bool // L2: executions that iterate a loop more than MaxVisits times are dropped (fair-scheduling bound)
 	Preempt     int // max preemptions per execution (-1: unbounded, sleep-set reduction)
 }
 
@@ -153,6 +154,7 @@ type Interp struct {
 	pendingTrace []string
 	schedChoice  bool
 	preempts     int
+	unfair       int
 }
 
 type Thread struct {
